@@ -3,7 +3,8 @@
 Deciding oracle = Lean (lean/Pw/C09/Dec.lean): `c09pag` computes the PAG of a MAG from the definition
 (enumeration of the Markov equivalence class with the proved m-separation model), `c09valid` / `c09struct`
 validate the graph returned by the implementation against the clauses of the property (a MAG is a
-*witness* output: validated, not compared).  `c09model` is the Lean model of the function; it is compared
+*witness* output: validated, not compared).  Both are proved equal to their declarative specification
+(lean/Pw/C09/ValidOk.lean: c09valid_ok_iff, c09struct_ok_iff, c09pag_spec).  `c09model` is the Lean model of the function; it is compared
 with the implementation on int-labelled inputs (iteration orders of Python sets are passed as inputs).
 
 case kinds
@@ -296,8 +297,10 @@ def run(ctx):
                "random ones on 4-6 nodes (isolated nodes, <->, --, -o, o-o, o->). non-trivial = the PAG has a circle mark")
     ev.assumptions = ["PAG instances are well-formed (one edge per pair, encodings of the PAG class docstring)",
                       "model comparison only for int labels 0..n-1 (set iteration order passed to / assumed by the model)",
-                      "the class clauses (acyclic, ancestral, no new unshielded collider, Markov equivalence) are compared "
-                      "with the Lean oracle (testing); they are theorems only conditionally (Zhang 2008 Thm 2, Meek)"]
+                      "the class clauses (acyclic, ancestral, no new unshielded collider, maximal, Markov equivalence) are judged "
+                      "on each output by the Lean validator, itself proved equal to the declarative clauses (C09.c09valid_ok_iff; PAG "
+                      "oracle: C09.pagOf_isPagOf); that pag_to_mag satisfies them is testing - a theorem only conditionally "
+                      "(Zhang 2008 Thm 2, Meek)"]
     cases = [dict(c, src="corpus") for c in C.load_corpus(PID)] + gen_cases(ctx)
     res = C.pmap(_worker, cases, chunksize=16)
     bad, corr = [], []
